@@ -149,6 +149,27 @@ func enumerate(emit emitFn, thorough bool) {
 			}
 		}
 	}
+	// thorough: ordered triples of causes at four representative stages
+	if thorough {
+		for _, st := range stages {
+			switch st.name {
+			case "start", "handshake-done", "working", "msg-inflight":
+			default:
+				continue
+			}
+			for _, a := range causes {
+				for _, b := range causes {
+					for _, c3 := range causes {
+						ops := append(st.ops(1), a.ops(1)...)
+						ops = append(ops, b.ops(1)...)
+						ops = append(ops, c3.ops(1)...)
+						emit("triple", withEpilogue(ops, 1, false),
+							[]string{"stage:" + st.name, "cause:" + a.name, "cause:" + b.name, "cause:" + c3.name, "triple"})
+					}
+				}
+			}
+		}
+	}
 	// concurrent closers (real races between goroutines), with a parked reader released
 	// in the same instant where the stage has one
 	var simple []cause
@@ -226,6 +247,15 @@ func enumerate(emit emitFn, thorough bool) {
 	}
 	for k := int64(0); k < nrt; k++ {
 		emit("real-ticker", []hx.T{op("ORealTicker", k)}, []string{"real-ticker"})
+	}
+	// a real TCP socket through the real acceptor and pomelo.StartAcceptor
+	for v := int64(0); v <= 5; v++ {
+		for _, k := range []int64{0, 3} {
+			if v == 5 && k > 0 {
+				continue
+			}
+			emit("tcp", []hx.T{op("OTcp", v, k)}, []string{"tcp", fmt.Sprintf("tcp-cause-%d", v)})
+		}
 	}
 }
 
